@@ -11,7 +11,7 @@ use proptest::prelude::*;
 use serde::{Deserialize, Serialize};
 use std::collections::BTreeMap;
 
-pub const RULE: &str = "(D0) every protected name (16 keywords / inputs / constants / inf / infinity and every name of get_built_in_function_idents()) x 15 binding forms (plain, output, nested in parentheses / list / record / operator chain / conditional, function value; inside a lambda body or do-block; and as a do-block local / parameter that is read back - which must fail or give the bound value): the top-level forms must fail, and in all forms what typeof / to_string / field access observe of the name at top level, and the set of root names, must be unchanged. (D1) every sequence up to length 4 (thorough: 5 over a 27-template core) over an alphabet of statement templates on names a, b: bind, rebind, copy, nested assignment `a = (b = 5) + 1`, self-nested `a = (a = 1) + 1`, list-nested, partially failing `[a = 1, nope]`, `output a`, `output a = 1`, do-block shadowing / nested assignment inside a do-block / do-block returning a closure, functions whose parameters reuse a / b, calls, closures over a (reading it, rebinding it in a do-block) called at top level and from inside a function whose parameter is called a, assignment inside a lambda body (with parameters; anonymous without parameters, with and without captured names), failing statements, attempts to bind keywords, inputs, constants and built-in names; each statement is evaluated like a REPL line and compared with a bind-once reference model (success / failure, the whole root environment, values). (D2) random sessions of 5-40 generated statements with rebinding attempts and failing statements, checked with history invariants: snapshot monotonicity, no insert into the root environment for a key it holds (hook H2), reserved names never bound, root names are a subset of the names assigned in top-level position. (D3) sessions of 2-7 one-line statements (heap-valued bindings, nested bindings inside lines that fail later, rebinding attempts, allocating lines) typed into the interactive CLI on a pseudo-terminal; afterwards every name is printed and must show what the same lines give in-process. Non-trivial = the history contains a (re)binding attempt on an already bound or reserved name, or a shadowing scope; distinct by the statement sequence.";
+pub const RULE: &str = "(D0) every protected name (16 keywords / inputs / constants / inf / infinity and every name of get_built_in_function_idents()) x 15 binding forms (plain, output, nested in parentheses / list / record / operator chain / conditional, function value; inside a lambda body or do-block; and as a do-block local / parameter that is read back - which must fail or give the bound value): the top-level forms must fail, and in all forms what typeof / to_string / field access observe of the name at top level, and the set of root names, must be unchanged. (D1) every sequence up to length 4 (thorough: 5 over a 27-template core) over an alphabet of statement templates on names a, b: bind, rebind, copy, nested assignment `a = (b = 5) + 1`, self-nested `a = (a = 1) + 1`, list-nested, partially failing `[a = 1, nope]`, `output a`, `output a = 1`, do-block shadowing / nested assignment inside a do-block / do-block returning a closure, functions whose parameters reuse a / b, calls, closures over a (reading it, rebinding it in a do-block) called at top level and from inside a function whose parameter is called a, assignment inside a lambda body (with parameters; anonymous without parameters, with and without captured names), failing statements, attempts to bind keywords, inputs, constants and built-in names; each statement is evaluated like a REPL line and compared with a bind-once reference model (success / failure, the whole root environment, values). (D2) random sessions of 5-40 generated statements with rebinding attempts and failing statements, checked with history invariants: snapshot monotonicity, no insert into the root environment for a key it holds (hook H2), reserved names never bound, root names are a subset of the names assigned in top-level position. (D3) sessions of 2-7 one-line statements (heap-valued bindings, nested bindings inside lines that fail later, rebinding attempts, allocating lines) typed into the interactive CLI on a pseudo-terminal; afterwards every name is printed and must show what the same lines give in-process. (D4) 6 ways of keeping an anonymous function whose body mentions an unbound name x 7 inner scopes that bind that name to the function value (do-block local, parameter, nested block, block inside a function / a via callback, failing block, via a second local) x 4 names: what the function does when reached through its container (call results and failures, display, self-equality) must be the same before and after, and the name must not appear at top level. Non-trivial = the history contains a (re)binding attempt on an already bound or reserved name, or a shadowing scope; distinct by the statement sequence.";
 pub const ASSUMPTIONS: &[&str] = &[
     "hook H2 (thread-local log of Environment::insert) is a monitor only; with the feature off the code is unchanged",
     "a statement that fails half-way may keep the bindings its already-evaluated inner assignments made (the statement only requires that bound names never change)",
@@ -318,7 +318,33 @@ pub enum Case {
     /// lines typed into the interactive CLI on a pseudo-terminal; afterwards every name is
     /// printed and compared with the same lines evaluated in-process
     Repl(Vec<u8>),
+    /// D4: an anonymous function value (kept in a container) whose body mentions the unbound
+    /// name NAME; an inner scope binds NAME to that function value. What the function does
+    /// when reached through the container, and how it displays, must be the same before and after
+    Leak { holder: u8, binder: u8, name: u8 },
 }
+
+/// (setup statements, expression that reaches the function)
+pub const LEAK_HOLDERS: &[(&str, &str)] = &[
+    ("fs = [n => if n <= 0 then 0 else NAME(n - 1) + 1]", "fs[0]"),
+    ("fs = {f: n => if n <= 0 then 0 else NAME(n - 1) + 1}", "fs.f"),
+    ("mk = () => (n => if n <= 0 then 0 else NAME(n - 1) + 1)\nfs = [mk(), 1]", "fs[0]"),
+    ("fs = [[n => if n <= 0 then 0 else NAME(n - 1) + 1]] via (g => g)", "fs[0][0]"),
+    ("w = 1\nfs = [1, n => if n <= 0 then 0 else NAME(n - w) + w]", "fs[1]"),
+    // the name is bound at top level (later than the function) to something else
+    ("fs = [n => if n <= 0 then 0 else NAME(n - 1) + 1]\nNAME = n => 100", "fs[0]"),
+];
+/// statements that bind NAME to the function in an inner scope only
+pub const LEAK_BINDERS: &[&str] = &[
+    "a = do {\n  NAME = ACCESS\n  return NAME(2)\n}",
+    "a = (NAME => NAME(2))(ACCESS)",
+    "a = do {\n  t = do {\n    NAME = ACCESS\n    return 1\n  }\n  return t\n}",
+    "h = x => do {\n  NAME = ACCESS\n  return NAME(x)\n}\na = h(2)",
+    "a = do {\n  NAME = ACCESS\n  return nope_zz\n}",
+    "a = [1] via (i => do {\n  NAME = ACCESS\n  return NAME(i)\n})",
+    "a = do {\n  other_q = ACCESS\n  NAME = other_q\n  return NAME(1)\n}",
+];
+pub const LEAK_NAMES: &[&str] = &["k", "self", "rec", "f2"];
 
 /// one-line statements for interactive sessions: heap-valued bindings, nested bindings inside
 /// lines that fail later, rebinding attempts, allocation-heavy lines
@@ -480,6 +506,44 @@ impl Check for History {
                 let names_after: Vec<String> = snapshot(&sess).keys().cloned().collect();
                 if let Some(k) = names_after.iter().find(|k| !names_before.contains(k) && (k.as_str() != "zq" || got.is_err())) {
                     fail!(format!("protected:root-gained:{}", tmpl.replace('\n', " ")), "after `{}` ({:?}) the root environment gained the name {}", src, got.as_ref().map(|_| "ok"), k);
+                }
+                Ok(())
+            }
+            Case::Leak { holder, binder, name } => {
+                let (setup, access) = LEAK_HOLDERS[*holder as usize % LEAK_HOLDERS.len()];
+                let name = LEAK_NAMES[*name as usize % LEAK_NAMES.len()];
+                let setup = setup.replace("NAME", name);
+                let bind = LEAK_BINDERS[*binder as usize % LEAK_BINDERS.len()].replace("NAME", name).replace("ACCESS", access);
+                ctx.label("inner-binding-of-function-value");
+                ctx.nontrivial(hash_str(&format!("leak|{}|{}", setup, bind)));
+                let sess = Sess::new();
+                sess.set_inputs(&[]);
+                for l in setup.split('\n') {
+                    if let Err(e) = sess.obs(l) {
+                        fail!("leak:setup-rejected", "`{}` fails: {:?}", l, e);
+                    }
+                }
+                let probes = [format!("{}(2)", access), format!("{}(0)", access), format!("to_string({})", access), format!("[5] via {}", access), format!("{} == {}", access, access)];
+                let observe = |sess: &Sess| -> Vec<Result<MV, ()>> { probes.iter().map(|p| sess.obs(p).map_err(|_| ())).collect() };
+                let names_before: Vec<String> = snapshot(&sess).keys().cloned().collect();
+                let before = observe(&sess);
+                let again = observe(&sess);
+                if before != again {
+                    fail!("leak:unstable-before-binding", "after\n{}\nthe probes {:?} give {:?} and then {:?}", setup, probes, before, again);
+                }
+                let _ = sess.obs(&bind);
+                let after = observe(&sess);
+                for ((p, b), a) in probes.iter().zip(&before).zip(&after) {
+                    if a != b {
+                        fail!(
+                            format!("leak:function-value-changed:{}", if b.is_err() { "fails-before" } else { "succeeds-before" }),
+                            "after\n{}\n`{}` gives {:?}; after also evaluating\n{}\n(which binds {} in an inner scope only) the same expression gives {:?}",
+                            setup, p, b, bind, name, a
+                        );
+                    }
+                }
+                if let Some(k) = snapshot(&sess).keys().find(|k| !names_before.contains(k) && !matches!(k.as_str(), "a" | "h")) {
+                    fail!("leak:name-visible-at-top-level", "after\n{}\n{}\nthe name {} is bound at top level", setup, bind, k);
                 }
                 Ok(())
             }
@@ -702,6 +766,11 @@ pub fn run(ctx: &mut Ctx) {
     }
     // random longer template histories
     ctx.run_random(&History, prop::collection::vec(0u8..TEMPLATES.len() as u8, 5..14).prop_map(Case::Templates), ctx.tier.pick(20_000, 400_000));
+    // D4: inner scopes that bind a name to an anonymous function value which mentions that name
+    let leaks: Vec<Case> = (0..LEAK_HOLDERS.len() as u8)
+        .flat_map(|h| (0..LEAK_BINDERS.len() as u8).flat_map(move |b| (0..LEAK_NAMES.len() as u8).map(move |n| Case::Leak { holder: h, binder: b, name: n })))
+        .collect();
+    ctx.run_enum(&History, leaks.into_iter(), false);
     // D3: interactive sessions on a pseudo-terminal vs the same lines in-process
     let mut repl = vec![Case::Repl(vec![0, 1, 8]), Case::Repl(vec![3, 11, 6]), Case::Repl(vec![15, 2, 10, 8]), Case::Repl(vec![12, 13, 14, 5, 9])];
     repl.truncate(if thorough { 4 } else { 4 });
